@@ -114,9 +114,58 @@ def eval_case(case):
             pass
         if r.code in (0, 2, 3):
             fails.append(['incomplete-audit-exits-%d' % r.code, 'stage %s fault %r opts %r: exit %d; out tail %r' % (stage, case.get('fault'), opts, r.code, r.out[-200:])])
+        if '-P' in opts:
+            verdict = None
+            if js:
+                try:
+                    d = json.loads(r.out)
+                    verdict = d.get('passed') if isinstance(d, dict) else None
+                except ValueError:
+                    pass
+            else:
+                verdict = report.policy_result(r.out)['passed']
+            cl.append('policy-audit')
+            if verdict is not None:
+                fails.append(['incomplete-policy-audit-prints-verdict', 'stage %s fault %r opts %r: verdict %r; %r' % (stage, case.get('fault'), opts, verdict, r.out[-300:])])
         if has_report(r.out, js):
             fails.append(['incomplete-audit-prints-algorithm-report', 'stage %s fault %r opts %r: %r' % (stage, case.get('fault'), opts, r.out[-300:])])
         return mkres(case, nt=True, classes=cl, fails=fails)
+    if k == 'noverdict':
+        # a policy audit that cannot be carried out (policy of the other role, policy file that does not load):
+        # no verdict, hence neither of the two verdict statuses
+        import os
+        js = case['json']
+        net = fakenet.FakeNet()
+        peer = fakenet.Server({'kex': ['curve25519-sha256'], 'key': ['ssh-ed25519'], 'enc': ['aes128-ctr'], 'mac': ['hmac-sha2-256']})
+        path = None
+        if case.get('text') is not None:
+            path = drive.tmpfile(case['text'])
+        base = ['-n'] + (['-j'] if js else []) + ['-P', path or case['policy']]
+        try:
+            if case['role'] == 'server':
+                net.add('h', 22, peer)
+                r = drive.run_cli(base + ['--skip-rate-test', 'h'], net)
+            else:
+                net.pending_clients.append(peer)
+                r = drive.run_cli(base + ['-c'], net)
+        finally:
+            if path:
+                os.unlink(path)
+        verdict = None
+        try:
+            d = json.loads(r.out) if js else None
+            verdict = d.get('passed') if isinstance(d, dict) else (report.policy_result(r.out)['passed'] if not js else None)
+        except ValueError:
+            verdict = report.policy_result(r.out)['passed']
+        if r.hang:
+            fails.append(['hang', r.brief()])
+        if r.code in (0, 3) and not r.exc:
+            fails.append(['policy-audit-without-verdict-exits-%d' % r.code, '%r: exit %d, out %r' % (case, r.code, r.out[-200:])])
+        if verdict is not None:
+            fails.append(['policy-audit-that-cannot-run-prints-verdict', '%r: %r' % (case, r.out[-200:])])
+        if net.connects and case.get('why') != 'late':
+            fails.append(['connection-made-for-unusable-policy', '%r: %r' % (case, net.connects[:2])])
+        return mkres(case, nt=True, classes=['noverdict', case['why'], 'json' if js else 'text'], fails=fails)
     if k == 'policy':
         from ssh_audit.builtin_policies import BUILTIN_POLICIES
         pol = BUILTIN_POLICIES[case['policy']]
@@ -196,9 +245,12 @@ def valid_case(case):
 NO_SHRINK_KEYS = ('opts', 'fault')
 
 
+BROKEN_POLICY = 'Hardened OpenSSH Server v9.9 (version 1)'
+
+
 def broken_cases(quick):
     cases = []
-    optsets = [['-n'], ['-n', '-j'], ['-n', '-b', '-l', 'fail'], ['-n', '-v']]
+    optsets = [['-n'], ['-n', '-j'], ['-n', '-b', '-l', 'fail'], ['-n', '-v'], ['-n', '-P', BROKEN_POLICY], ['-n', '-j', '-P', BROKEN_POLICY]]
     kx = wire.kexinit([b'curve25519-sha256', b'diffie-hellman-group1-sha1'], [b'ssh-ed25519', b'ssh-dss'], [b'aes128-ctr', b'3des-cbc'], [b'hmac-sha2-256', b'hmac-md5'])
     offs, end = wire.kexinit_field_offsets(kx)
     cuts = sorted(set([1, 2, 16, 17] + offs + [o + 2 for o in offs] + [o + 4 for o in offs] + [o + 5 for o in offs] + [end, end + 1, end + 4, len(kx) - 1]))
@@ -243,7 +295,24 @@ def run(ctx):
         for f, op in itertools.product(('kex', 'enc', 'mac', 'key'), ('drop', 'add', 'swap')):
             if not ctx.quick or ctx.rng.random() < 0.25:
                 pc.append({'kind': 'policy', 'policy': p, 'drift': [f, op]})
+    nv = []
+    server_pols = [p for p in sorted(BUILTIN_POLICIES) if BUILTIN_POLICIES[p]['server_policy']]
+    client_pols = [p for p in sorted(BUILTIN_POLICIES) if not BUILTIN_POLICIES[p]['server_policy']]
+    bad_files = ['name = "x"\n', 'version = 1\n', 'name = "x"\nversion = 1\nfoo = bar\n', 'name = "x"\nversion = 1\njunk line\n', 'name = "x"\nversion = 1\nbanner = unquoted\n',
+                 'name = "x"\nversion = 1\nhost_key_sizes = {bad json\n', 'name = "x"\nversion = 1\nhostkey_size_ssh-rsa = abc\n', '', '# only a comment\n']
+    for js in (False, True):
+        for p in (server_pols[:3] + server_pols[-2:]):
+            nv.append({'kind': 'noverdict', 'why': 'server-policy-for-client-audit', 'role': 'client', 'policy': p, 'json': js})
+        for p in client_pols[:3] + client_pols[-2:]:
+            nv.append({'kind': 'noverdict', 'why': 'client-policy-for-server-audit', 'role': 'server', 'policy': p, 'json': js})
+        for t in bad_files:
+            for role in ('server', 'client'):
+                nv.append({'kind': 'noverdict', 'why': 'policy-file-does-not-load', 'role': role, 'text': t, 'json': js})
+        nv.append({'kind': 'noverdict', 'why': 'policy-file-does-not-load', 'role': 'server', 'policy': '/nonexistent/policy.txt', 'json': js})
+        nv.append({'kind': 'noverdict', 'why': 'policy-file-does-not-load', 'role': 'server', 'policy': 'No Such Built-in Policy (version 9)', 'json': js})
+    ctx.map(nv)
     ctx.map(pc)
+    ctx.note(policy_audits_without_verdict=len(nv))
     ctx.note(broken_handshake_cases=len(bc), policy_cases=len(pc))
-    return ctx.finish('exploration', 'Hypothesis peers mixing fail-rated / warn-only / clean / unknown / gss names in random order x 14 option sets x colour x role; handshakes broken at every stage (unresolvable, refused, timeout, silent, close/stall before/inside/after banner, garbage, wrong first packet, bad length/padding, KEXINIT truncated at every field boundary (thorough: every byte) and re-framed, oversized list lengths, SSH-1 bad CRC/truncation) x 4 option sets; built-in policy audits with and without drift; non-trivial = a lower-rated name after a failure-rated one, or a level/JSON option, or a broken stage, or a policy audit',
+    return ctx.finish('exploration', 'Hypothesis peers mixing fail-rated / warn-only / clean / unknown / gss names in random order x 14 option sets x colour x role; handshakes broken at every stage (unresolvable, refused, timeout, silent, close/stall before/inside/after banner, garbage, wrong first packet, bad length/padding, KEXINIT truncated at every field boundary (thorough: every byte) and re-framed, oversized list lengths, SSH-1 bad CRC/truncation) x 6 option sets (two of them policy audits, which must then print no verdict); built-in policy audits with and without drift; non-trivial = a lower-rated name after a failure-rated one, or a level/JSON option, or a broken stage, or a policy audit',
                       assumptions=['expected status is computed from the table classes of the advertised names (+ Terrapin context by the published rule, unknown names count as warnings), no probe answered'])
